@@ -528,6 +528,13 @@ func callSSA(i *interpreter, caller *frame, callpos token.Pos, fn *ssa.Function,
 		caller: caller, // for panic/recover
 		fn:     fn,
 	}
+	if fn.Parent() != nil && len(i.replacements) > 0 {
+		// an anonymous function can be replaced as a whole too (named parent$N)
+		if rep, ok := i.replacements[fn.String()]; ok {
+			ex.noteStub("replacement:" + fn.String())
+			return call(i, caller, callpos, rep, args)
+		}
+	}
 	if fn.Parent() == nil {
 		if fn.Pkg != nil && fn.Pkg.Pkg.Path() == VerifrtPath {
 			for k := range args {
